@@ -59,10 +59,10 @@ class SubCtx:
         want = (self.floors.get(self.cfg) or {}).get(k)
         if want is None:
             self.fail_closed(rule, 'no floor recorded for %s in tables/c20_floors.json (observed %d)' % (k, count))
-        elif count < (want if want < 50 else int(want * 0.9)):
-            # recorded floors are the counts observed when the table was recorded; large census counts (functions, paths, cells)
-            # move by a few with every outlined closure or merged arm, so they get 10% slack - a rule that lost its subject
-            # loses far more than that
+        elif count < (max(1, int(want * 0.8)) if want < 50 else int(want * 0.9)):
+            # recorded floors are the counts observed when the table was recorded; census counts (functions, paths, cells, field
+            # accesses) move by a few with every outlined closure or merged arm, so they get 10% (small ones 20%) slack - a rule
+            # that lost its subject loses far more than that
             self.fail_closed(rule, '%s: analysed %d < floor %d' % (what, count, want))
         self.ctx.analysed['%s[%s].%s.%s' % (self.pid, self.cfg, rule, what)] = count
 
